@@ -85,6 +85,11 @@ def system(n, na, rng=None):
     if na < n:
         sim.N_active = na
     sim.move_to_com()
+    for p in sim.particles:         # a frame in which the centre of mass is displaced and moves (the step keeps its own copy of it)
+        p.x += 3.0
+        p.y -= 1.5
+        p.vx += 0.21
+        p.vz -= 0.13
     sim.integrator = "trace"
     sim.dt = 0.02
     return sim
@@ -152,6 +157,9 @@ def real(outdir, seed, nsys):
         if na < n:
             sim.N_active = na
         sim.move_to_com()
+        for p in sim.particles:
+            p.x += rng.uniform(-2, 2)
+            p.vy += rng.uniform(-0.3, 0.3)
         sim.integrator = "trace"
         sim.ri_trace.peri_mode = mode
         sim.dt = rng.choice([0.02, 0.05, 0.1])
